@@ -1077,3 +1077,6 @@ def _malformed(Hh, rng, n, a, r, bad):
     k = rng.randrange(r)
     idx[k] = int(a.shape[k]) if rng.random() < 0.5 else -int(a.shape[k]) - 1
     return dict(op='setitem', a=n, idx=idx, x=1.0, expect='error')
+
+
+from harness import c02_cover  # noqa: E402,F401  (registers the coverage-round generators)
